@@ -517,7 +517,10 @@ pub fn check_clean_run(c: &ConnCase, b: &Built, m: &ConnModel, r: &RunResult) ->
     vensure!(r.invocations.len() == wk.invoked, "conn-invocations", "handler invoked {} times, expected {} (requests on the connection: {}, kinds {:?})", r.invocations.len(), wk.invoked, c.reqs.len(), b.kinds);
     let ids: Vec<u16> = c.reqs.iter().map(|q| q.pre.id).collect();
     let view = view_log(&w.log)?;
-    vensure!(view.complete_len == view.total_len, "conn-partial-record", "byte log ends with an incomplete record ({} of {} bytes decoded)", view.complete_len, view.total_len);
+    // (when a handler returns an I/O error the connection is dropped on the spot: a management
+    // reply whose flush was interrupted by a cancelled read may then remain cut off)
+    let dropped_on_handler_error = wk.ends.last().is_some_and(|e| e.is_none());
+    vensure!(view.complete_len == view.total_len || dropped_on_handler_error, "conn-partial-record", "byte log ends with an incomplete record ({} of {} bytes decoded)", view.complete_len, view.total_len);
     // the two stream-end records are optional for aborted requests (only the single EndRequest is stated)
     let g = check_grammar(&view, &ids, &|i| b.kinds.get(i).is_some_and(|k| *k != Kind::Normal))?;
     let mut j = 0usize; // invocation index
@@ -629,6 +632,7 @@ pub fn hop(allow_err: bool) -> BoxedStrategy<HOp> {
     let base = prop_oneof![
         3 => prop_oneof![Just(0u16), 1u16..=9, 1u16..=600, Just(u16::MAX)].prop_map(HOp::Read),
         2 => prop_oneof![1u16..=9, 10u16..=700].prop_map(|cap| HOp::ReadToEnd { cap }),
+        1 => (prop_oneof![1u16..=9, 10u16..=700], 0u8..3).prop_map(|(cap, polls)| HOp::ReadCancel { cap, polls }),
         3 => prop_oneof![Just(0u16), 1u16..=9, 1u16..=600, Just(u16::MAX)].prop_map(HOp::FillConsume),
         1 => Just(HOp::NextStream),
         1 => Just(HOp::AwaitWriteable),
@@ -700,7 +704,7 @@ pub fn conn_case(max_reqs: usize, allow_err: bool, wait_mgmt: BoxedStrategy<bool
         read_script(),
         write_script(),
         any::<bool>(),
-        prop_oneof![2 => Just(0u32), 2 => Just(64u32), 2 => Just(8192u32), 1 => 24u32..600],
+        prop_oneof![4 => Just(0u32), 4 => Just(64u32), 4 => Just(8192u32), 2 => 24u32..600, 1 => Just(70000u32), 1 => Just(131072u32), 1 => Just(200000u32)],
         prop_oneof![Just(1u32), 1u32..1000],
         any::<bool>(),
     )
